@@ -7,6 +7,7 @@ import (
 	"math"
 	"strings"
 
+	dtpb "github.com/google/fhir/go/proto/google/fhir/proto/r4/core/datatypes_go_proto"
 	"github.com/verily-src/fhirpath-go/fhirpath"
 	"github.com/verily-src/fhirpath-go/fhirpath/evalopts"
 	"github.com/verily-src/fhirpath-go/fhirpath/system"
@@ -28,7 +29,7 @@ func init() {
 		Assumptions: []string{"equality classes for the set functions are computed from JSON values (strings, numbers numerically, booleans) and proto.Equal for complex elements; collections of date/time primitives are excluded from the set-function checks (their equality depends on precision/offset rules covered by C05)",
 			"intersect may return primitive elements of c as System values; it returns c's items (never the argument's equal copies), with c's type and precision, in c's order"},
 		Run:    runC10,
-		Checks: map[string]func(*core.Env, []json.RawMessage){"resource": replayC10, "envcoll": replayC10Env, "mixedtypes": func(env *core.Env, a []json.RawMessage) {
+		Checks: map[string]func(*core.Env, []json.RawMessage){"resource": replayC10, "envcoll": replayC10Env, "extedge": func(env *core.Env, a []json.RawMessage) { c10ExtensionEdge(env) }, "mixedtypes": func(env *core.Env, a []json.RawMessage) {
 			var seed uint64
 			json.Unmarshal(a[0], &seed)
 			c10MixedTypes(env, seed)
@@ -727,7 +728,17 @@ func c10EnvColls() []*c10Coll {
 		mk("booleans", []any{system.Boolean(true), system.Boolean(false), system.Boolean(true)}, []string{"b:true", "b:false", "b:true"}),
 		mk("complex-dups", []any{p.Name[0], p.Name[1], proto.Clone(p.Name[0])}, []string{"c:0", "c:1", "c:0"}),
 		mk("mixed", []any{system.Integer(1), system.String("1"), p.Name[0], system.Integer(1)}, []string{"n:1", "s:1", "c:0", "n:1"}),
+		// primitive-typed elements that hold no value (unit only, data-absent-reason): they cannot become System values
+		mk("valueless-primitives", []any{qNoValue("mg"), decNoValue(), qNoValue("mg"), system.Integer(1), qNoValue("kg")}, []string{"c:qmg", "c:d", "c:qmg", "n:1", "c:qkg"}),
 	}
+}
+
+func qNoValue(u string) *dtpb.Quantity {
+	return &dtpb.Quantity{Unit: &dtpb.String{Value: u}, Code: &dtpb.Code{Value: u}, System: &dtpb.Uri{Value: "http://unitsofmeasure.org"}}
+}
+
+func decNoValue() *dtpb.Decimal {
+	return &dtpb.Decimal{Extension: []*dtpb.Extension{{Url: &dtpb.Uri{Value: "http://hl7.org/fhir/StructureDefinition/data-absent-reason"}, Value: &dtpb.Extension_ValueX{Choice: &dtpb.Extension_ValueX_Code{Code: &dtpb.Code{Value: "unknown"}}}}}}
 }
 
 func c10EnvColl(env *core.Env, i int) {
@@ -823,8 +834,49 @@ func c10MixedTypes(env *core.Env, seed uint64) {
 	}
 }
 
+// c10ExtensionEdge: extensions without a url, with an empty url and with the queried url, queried with '' and others.
+func c10ExtensionEdge(env *core.Env) {
+	defer env.In("extedge")()
+	env.Case()
+	env.Cover("extension-edge")
+	mk := func(u *string, v string) *dtpb.Extension {
+		e := &dtpb.Extension{Value: &dtpb.Extension_ValueX{Choice: &dtpb.Extension_ValueX_StringValue{StringValue: &dtpb.String{Value: v}}}}
+		if u != nil {
+			e.Url = &dtpb.Uri{Value: *u}
+		}
+		return e
+	}
+	empty, a := "", "http://u/a"
+	hn := &dtpb.HumanName{Family: &dtpb.String{Value: "X"}, Extension: []*dtpb.Extension{mk(nil, "no-url"), mk(&empty, "empty-url"), mk(&a, "a1"), mk(nil, "no-url-2"), mk(&a, "a2")}}
+	p := gen.StdPatient()
+	p.Name = append(p.Name, hn)
+	for _, recv := range []struct {
+		src string
+		eo  []fhirpath.EvaluateOption
+	}{{"%h", []fhirpath.EvaluateOption{evalopts.EnvVariable("h", hn)}}, {"%p.name", []fhirpath.EvaluateOption{evalopts.EnvVariable("p", p)}}} {
+		for _, u := range []string{"''", "'http://u/a'", "'http://u/b'", "{}", "' '", "%u"} {
+			eo := append(append([]fhirpath.EvaluateOption{}, recv.eo...), evalopts.EnvVariable("u", system.String("")))
+			x := c10Eval(env, recv.src+".extension("+u+")", eo...)
+			y := c10Eval(env, recv.src+".extension.where(url = "+u+")", eo...)
+			if x.IsPanic() || y.IsPanic() {
+				env.Violatef(fx.PanicSig("C10", x), "`%s.extension(%s)` => %s / %s", recv.src, u, x.Short(), y.Short())
+				continue
+			}
+			if x.IsValue() && y.IsValue() {
+				if ok, why := sameItems(x.Raw, y.Raw); !ok {
+					env.Violatef("C10/extension/not-equal-to-where", "%s with url-less, empty-url and other extensions: extension(%s) != extension.where(url = %s): %s", recv.src, u, u, why)
+				}
+			}
+		}
+	}
+}
+
 func runC10(env *core.Env) {
 	n := 0
+	n++
+	if env.Mine(n) {
+		c10ExtensionEdge(env)
+	}
 	for k := 0; k < env.Size(150, 3000); k++ {
 		n++
 		if env.Mine(n) {
